@@ -28,6 +28,9 @@ CHECKS = {
  "C04": dict(level="exploration", technique="argv recorder monitor (callable aliases + hex-dumping real child) with generator-side expected values",
    text="~54k deliveries per quick run: hostile strings through @() forms, every literal kind, f-strings, macro text, @$() re-splitting and the documented $VAR/~ expansion, in first/middle/last position, observed by a threaded alias, an unthreadable alias, a real child, a real child after a pipe and an alias inside $(); the recorded argv must equal the value CPython assigns to the literal / the injected object, and both delivery paths must agree.",
    note="Non-raw literals containing $ or ~ are judged only in the documented-expansion class; glued pre@(v)post uses metacharacter-free values; macro texts exclude comments and trailing backslashes (line structure, not text).", ref="§2 C04"),
+ "C05": dict(level="exploration", technique="reference-evaluator monitor over executed-command log, escaping exception and sentinel statement; CLI runs for the exit status",
+   text="Random and/or/&&/|| chains (tree = what Python precedence makes of the text, optional parenthesised groups) over pipelines of recording aliases and real `exitn N` children with scripted exit codes, every capture form, @error_raise/@error_ignore on the deciding stage, both operand spellings and all four flag settings are executed through Execer.exec followed by a sentinel statement; log order, CalledProcessError and its returncode, and the sentinel are compared with the A.1 evaluator; -c / script / stdin runs check the process exit status.",
+   note="Chains with `$()`/`$[]` operands (Python value semantics) and @error_raise inside !() (conflicting documented rules) are run but not judged; parenthesised groups that the parser rejects are C03's subject; transient hangs are counted, only reproducible ones reported.", ref="§2 C05, A.1"),
 }
 NOT_BUILT = "check not built yet in this session (planned, see DESIGN.md §2); nothing is claimed for it"
 def main():
